@@ -1002,7 +1002,8 @@ def run(prop, tier, seed):
             same = ml == rl or (ml.startswith("ERR") and rl.startswith("ERR") and sc["kind"].startswith("degenerate"))
             if not same:
                 out.disagreements.append({"op": "edit", "tag": sc["tag"], "history": desc, "kind": sc["kind"], "model": ml[:100] + " ... " + ml[-40:], "real": rl[:100] + " ... " + rl[-40:],
-                                          "first_diff": next((j for j in range(min(len(ml), len(rl))) if ml[j] != rl[j]), None)})
+                                          "first_diff": next((j for j in range(min(len(ml), len(rl))) if ml[j] != rl[j]), None),
+                                          "line": lines[i] if len(lines[i]) < 400000 else None})
         if res is None:
             if sc["kind"] == "normal" or (sc["kind"].startswith("special") and not sc.get("may_raise")):
                 out.violations.append(dict(base_info, oracle="in-range authored content on a decodable map saves", key=None, got=rl))
